@@ -1330,10 +1330,10 @@ func TestVF_C12_Witness(t *testing.T) {
 		t.Fatalf("rand.Seed has no effect")
 	}
 	env := c12Env{Seed: 7, CleanupMs: 1000, Parts: [3]int{2, 3, 0}, Script: []c12Act{
-		{Kind: c12KJoinNew, Sub: 1, Sess: 10000, Reb: 10000},             // m1 subscribes {ta}
-		{Kind: c12KSync, Who: 0, GenSel: 0},                              // leader sync -> Stable, owns ta/0, ta/1
+		{Kind: c12KJoinNew, Sub: 1, Sess: 10000, Reb: 10000},                // m1 subscribes {ta}
+		{Kind: c12KSync, Who: 0, GenSel: 0},                                 // leader sync -> Stable, owns ta/0, ta/1
 		{Kind: c12KRejoin, Who: 0, SubMode: 1, Sub: 2, Sess: 0, Reb: 10000}, // m1 re-subscribes to {tb} in Stable
-		{Kind: c12KSync, Who: 0, GenSel: 0},                              // still receives ta/0, ta/1; tb unowned
+		{Kind: c12KSync, Who: 0, GenSel: 0},                                 // still receives ta/0, ta/1; tb unowned
 	}}
 	st.Eval()
 	res := c12Execute(t, env, c12Opts{excludeStableRejoin: false})
